@@ -91,6 +91,13 @@ usage:
 			return nil, fmt.Errorf("duplicated: %s", s[0])
 		}
 		seen[s[0]] = struct{}{}
+		if len(s) != 2 {
+			if s[0] == "readonly" {
+				table.S3Options.ReadOnly = true
+				continue
+			}
+			return nil, fmt.Errorf("unknown option or missing value: %s", s[0])
+		}
 		switch s[0] {
 		case "columns":
 			err = convertSchema(internal.UnquoteAll(s[1]), table)
